@@ -130,7 +130,7 @@ theorem xinv_init (cfg : Cfg) (now : Time) : XInv cfg (init cfg now) := by
 theorem cls_closing {pc : CPc} (h : pc.cls = true) : pc.closing = true := by
   cases pc <;> first | rfl | cases h
 
-theorem own_cls {pc pc' : CPc} (h : Own pc pc') (hc : pc'.cls = true) :
+theorem own_cls {pc pc' : CPc} (h : OwnTr pc pc') (hc : pc'.cls = true) :
     pc = .clrRestart true ∧ pc' = .clsStop := by
   cases h <;> first | exact ⟨rfl, rfl⟩ | cases hc
 
@@ -143,13 +143,13 @@ theorem inert_not_active {pc : CPc} (h : pc.inert = true) : pc.busy = false ∧ 
   cases pc <;> first | exact ⟨rfl, rfl⟩ | cases h
 
 
-theorem own_from_cls {pc pc' : CPc} (h : Own pc pc') (hc : pc.cls = true) : pc' = .idle := by
+theorem own_from_cls {pc pc' : CPc} (h : OwnTr pc pc') (hc : pc.cls = true) : pc' = .idle := by
   cases h <;> first | rfl | (cases hc; done)
 
 theorem ext_cls_to {pc pc' : CPc} (h : Ext pc pc') (hc : pc.cls = true) : pc'.cls = true := by
   cases h <;> first | rfl | (cases hc; done)
 
-theorem own_nonbusy {pc pc' : CPc} (h : Own pc pc') (hb : pc.busy = false) : pc'.busy = false := by
+theorem own_nonbusy {pc pc' : CPc} (h : OwnTr pc pc') (hb : pc.busy = false) : pc'.busy = false := by
   cases h <;> first | rfl | (cases hb; done)
 
 theorem ext_to_busy {pc pc' : CPc} (h : Ext pc pc') (hne : pc ≠ .idle) (hb' : pc'.busy = true)
